@@ -1387,6 +1387,69 @@ pub fn world_b_idle(property: &str, scenario: &str, seed: u64, run: u64, thoroug
     plan
 }
 
+/// C02 (c): one side streams Reliable packets, the other only acknowledges - and may have its
+/// keepalive switched off - for several times the silence timeout on a loss-free link. Nothing
+/// may end the connection (every data frame is answered well inside the timeout), so every packet
+/// has to arrive.
+pub fn world_b_one_way(property: &str, scenario: &str, seed: u64, run: u64, thorough: bool) -> Plan {
+    let mut r = Rng::keyed(&[seed, crate::rng::str_key(property), crate::rng::str_key(scenario), run]);
+    let mut plan = Plan::new(property, scenario, seed, run);
+    plan.fate_seed = Some(key(&[seed, run, 0xfa7e]));
+    let latency = r.log_range(100, 100_000);
+    let timeout = r.log_range(1_500, 25_000);
+    let client_streams = r.chance(0.6);
+    let mut scfg = EndpointCfg::default();
+    let mut ccfg = EndpointCfg::default();
+    scfg.active_timeout_ms = timeout;
+    ccfg.active_timeout_ms = if r.chance(0.7) { timeout } else { r.log_range(1_500, 25_000) };
+    let quiet = if client_streams { &mut scfg } else { &mut ccfg };
+    match r.below(3) {
+        0 => quiet.keepalive = false,
+        1 => quiet.keepalive_interval_ms = 2 * timeout + r.range(0, 60_000),
+        _ => quiet.keepalive_interval_ms = r.log_range(100, 30_000),
+    }
+    let loud = if client_streams { &mut ccfg } else { &mut scfg };
+    loud.keepalive = r.chance(0.5);
+    loud.keepalive_interval_ms = r.log_range(100, 30_000);
+    let cc = ccfg.clone();
+    let topo = topology(&mut plan, &mut r, 1, 0, scfg, 64, 32, move |_, _| cc.clone());
+    let c = topo.clients[0];
+    plan.push(0, 0, Op::Create { ep: 0 });
+    let mut rule = clean_rule(latency);
+    if r.chance(0.5) {
+        rule.jitter_us = r.below(latency + 1);
+    }
+    if r.chance(0.3) {
+        rule.dup_p = 0.05;
+    }
+    plan.push(0, 2, Op::Link { from: None, to: None, rule });
+    plan.push(0, 3, Op::Mark { name: "heal".into() });
+    plan.push(1000, 1, Op::Create { ep: c });
+    let min_to = timeout.min(match &plan.endpoints[c].kind { EndpointKind::Client { cfg, .. } => cfg.active_timeout_ms, _ => timeout });
+    let t0 = 1_000_000;
+    let stream_us = min_to * 1000 * r.range(2, if thorough { 8 } else { 4 }) + r.range(0, 2_000_000);
+    let horizon = t0 + stream_us + 30_000_000;
+    plan.push(2000, 3, Op::StepEvery { ep: c, period_us: r.range(2_000, 100_000), until_us: horizon });
+    plan.push(2500, 3, Op::StepEvery { ep: 0, period_us: r.range(2_000, 100_000), until_us: horizon });
+    let (from, to) = if client_streams { (c, None) } else { (0, Some(c)) };
+    let max_gap = (min_to * 1000 / 3).max(60_000);
+    let busy = r.chance(0.5);
+    let mut t = t0;
+    let mut tag = 0u32;
+    while t < t0 + stream_us && tag < 4000 {
+        let len = if r.chance(0.1) { r.range(1500, 4000) } else { r.range(12, 600) } as u32;
+        plan.push(t, 0x4000_0000 + tag, Op::Send { ep: from, to, ch: (tag % 3) as u8, mode: MODE_RELIABLE, len, tag });
+        tag += 1;
+        t += if busy { r.log_range(3_000, max_gap.min(80_000)) } else { r.log_range(50_000, max_gap) };
+    }
+    plan.params.insert("expect_live".into(), 1.0);
+    plan.params.insert("connection_must_last".into(), 1.0);
+    plan.params.insert("end_when_quiescent".into(), 1.0);
+    plan.end_us = horizon;
+    plan.sort();
+    plan
+}
+
 /// C10 (c): retry budgets of unanswered handshakes and disconnects.
 pub fn world_b_retry(property: &str, scenario: &str, seed: u64, run: u64, _thorough: bool) -> Plan {
     let mut r = Rng::keyed(&[seed, crate::rng::str_key(property), crate::rng::str_key(scenario), run]);
